@@ -29,6 +29,15 @@ query = "select 42 as a"
 schema = [["a", "text"]]
 result = [["fake"]]
 """
+def _frame(tag, body):
+    return tag + (len(body) + 4).to_bytes(4, "big") + body
+
+
+# what the server says when IT aborts a COPY FROM STDIN (reported when the client ends the copy): ErrorResponse, ReadyForQuery(I)
+COPY_SRVERR_HEX = (_frame(b"E", b"SERROR\0VERROR\0C22P04\0Mmock copy error\0\0") + _frame(b"Z", b"I")).hex()
+# first messages after which the transaction is over at once: kind -> expected reply class
+RELEASE_KINDS = {"single": "row", "single_err": "sql_error", "copy_out": "copy_out_ok", "copy_out_big": "copy_out_ok",
+                 "lone_sync": "sync_only", "close_sync": "close_ok", "parse_sync": "parse_ok"}
 VALIDATOR = 900   # model client id of ConnectionPool::validate()'s one-off checkout
 HOWS = ["XTerminate", "ClientSocketErr", "IdleTimeoutWrite", "DecoderErr", "Panic", "ClientWriteFail",
         "StatementTimeout", "ServerError", "CleanupErr", "PreparedStmtErr"]
@@ -235,6 +244,7 @@ class Plan:
         self.failed = set()  # clients whose transaction is in the failed state
         self.nfail = {}      # client -> checkout failures so far (checkout_failure_limit)
         self.intercepted = set()  # clients that got an intercepted reply since the last observation
+        self.incopy = {}     # client in COPY FROM STDIN -> "plain" | "srverr" (the server will abort it)
         for c in range(nclients):
             self.steps.append({"op": "connect", "c": self.name(c), "params": {"user": "u", "database": "p", "application_name": self.name(c)}, "password": "pw"})
         # the first client to connect makes pgcat validate the pool (pool.rs validate(): one bb8 get(), server
@@ -284,15 +294,18 @@ class Plan:
             self.do(("Exchange", c))
             self.replies.append((nm, it["tag"], "begin_ok"))
             self.begin_tag[c] = it["tag"]
-        elif k in ("single", "single_err"):
+        elif k in RELEASE_KINDS:
             if self.m.session:
                 self.do(("SessionModeKeep", c))
             else:
                 self.do(("TxnEndRelease", c, False))
-            self.replies.append((nm, it["tag"], "row" if k == "single" else "sql_error"))
-        elif k == "intercept":
-            self.do(("InterceptHold", c))
-            self.replies.append((nm, it["tag"], "fake"))
+            self.replies.append((nm, it["tag"], RELEASE_KINDS[k]))
+        elif k in ("copy_in", "copy_in_srverr"):
+            # CopyInResponse: the client now sends CopyData; the server is kept (server.in_copy_mode())
+            self.do(("Exchange", c))
+            self.replies.append((nm, it["tag"], "copy_in_ready"))
+            self.begin_tag[c] = it["tag"]
+            self.incopy[c] = "srverr" if k == "copy_in_srverr" else "plain"
         elif k == "srvclose":
             self.do(("ExitHolding", c, "ServerError", True))
             self.gone_expected += 1
@@ -348,6 +361,24 @@ class Plan:
             msgs = [{"t": "Q", "sql": "SELECT 1 /*mock: close*/ /*%s*/" % t}]
         elif kind == "intercept":
             msgs = [{"t": "P", "name": "", "sql": "select 42 as a"}, {"t": "B", "portal": "", "name": ""}, {"t": "E", "portal": "", "max": 0}, {"t": "S"}]
+        elif kind == "copy_out":
+            msgs = [{"t": "Q", "sql": "COPY data TO STDOUT /*mock: rows=3*/ /*%s*/" % t}]
+        elif kind == "copy_out_big":
+            msgs = [{"t": "Q", "sql": "COPY data TO STDOUT /*mock: rows=40, size=500*/ /*%s*/" % t}]   # > 8196 bytes: several recv() rounds
+        elif kind == "copy_in":
+            msgs = [{"t": "Q", "sql": "COPY data FROM STDIN /*%s*/" % t}]
+        elif kind == "copy_in_srverr":
+            msgs = [{"t": "Q", "sql": "COPY data FROM STDIN /*mock: copy_reply_raw=%s*/ /*%s*/" % (COPY_SRVERR_HEX, t)}]
+        elif kind == "lone_sync":
+            msgs = [{"t": "S"}]
+        elif kind == "close_sync":
+            msgs = [{"t": "C", "kind": "S", "name": "st1"}, {"t": "S"}]
+        elif kind == "parse_sync":
+            # statement cache on: the same name and text every time (second use = cache hit, nothing goes to the server);
+            # cache off: the Parse is forwarded, so a fresh name each time
+            nmst = "st1" if self.cfg.get("cache") else "s%d" % self.seq
+            msgs = [{"t": "P", "name": nmst, "sql": "SELECT 7"}, {"t": "S"}]
+        until = "GZ" if kind in ("copy_in", "copy_in_srverr") else "Z"
         holding = self.m.st(c)[0] == "Holding"   # IdleHeld (session mode): no checkout
         if kind == "intercept":
             # answered at its Sync: by the outer loop without a checkout (client.rs 1077-1085), or, by a session-mode
@@ -358,7 +389,7 @@ class Plan:
             return
         if holding:
             self.intent[c] = {"kind": kind, "tag": t}
-            self.steps += [{"op": "send", "c": nm, "msgs": msgs}, {"op": "recv", "c": nm, "until": "Z", "timeout_ms": 3000, "label": t}]
+            self.steps += [{"op": "send", "c": nm, "msgs": msgs}, {"op": "recv", "c": nm, "until": until, "timeout_ms": 3000, "label": t}]
             it = self.intent.pop(c)
             s = self.m.st(c)[1]
             if s in self.m.dead:
@@ -366,14 +397,15 @@ class Plan:
                 self.replies.append((nm, t, "server_error"))
             elif kind == "begin":
                 self.do(("Exchange", c)); self.replies.append((nm, t, "begin_ok")); self.begin_tag[c] = t
-            elif kind in ("single", "single_err"):
+            elif kind in RELEASE_KINDS:
                 if self.m.session:
                     self.do(("SessionModeKeep", c))
                 else:
                     self.do(("TxnEndRelease", c, False))
-                self.replies.append((nm, t, "row" if kind == "single" else "sql_error"))
-            elif kind == "intercept":
-                self.do(("InterceptHold", c)); self.replies.append((nm, t, "fake"))
+                self.replies.append((nm, t, RELEASE_KINDS[kind]))
+            elif kind in ("copy_in", "copy_in_srverr"):
+                self.do(("Exchange", c)); self.replies.append((nm, t, "copy_in_ready")); self.begin_tag[c] = t
+                self.incopy[c] = "srverr" if kind == "copy_in_srverr" else "plain"
             elif kind == "srvclose":
                 self.do(("ExitHolding", c, "ServerError", True)); self.gone_expected += 1
                 self.replies.append((nm, t, "server_error"))
@@ -382,13 +414,13 @@ class Plan:
         self.intent[c] = {"kind": kind, "tag": t}
         self.do(("Checkout", c))
         if self.m.st(c)[0] == "Holding":
-            self.steps += [{"op": "send", "c": nm, "msgs": msgs}, {"op": "recv", "c": nm, "until": "Z", "timeout_ms": 3000, "label": t}]
+            self.steps += [{"op": "send", "c": nm, "msgs": msgs}, {"op": "recv", "c": nm, "until": until, "timeout_ms": 3000, "label": t}]
             self.granted(c)
             self.settle()
             return
         tk = "task_%s_%d" % (nm, self.seq)
         self.steps.append({"op": "spawn", "task": tk, "steps": [{"op": "send", "c": nm, "msgs": msgs},
-                                                                  {"op": "recv", "c": nm, "until": "Z", "timeout_ms": 20000, "label": t}]})
+                                                                  {"op": "recv", "c": nm, "until": until, "timeout_ms": 20000, "label": t}]})
         self.task[c] = tk
         nwait = len(self.m.waiters) + len(self.m.woken)
         self.settle()
@@ -420,7 +452,21 @@ class Plan:
         deadsrv = s in self.m.dead
         send = lambda msgs: self.steps.append({"op": "send", "c": nm, "msgs": msgs})
         recv = lambda to=3000: self.steps.append({"op": "recv", "c": nm, "until": "Z", "timeout_ms": to, "label": t})
-        if kind in ("stmt", "stmt_err", "commit"):
+        copying = c in self.incopy
+        if kind in ("copy_done", "copy_fail"):
+            variant = self.incopy.pop(c)
+            data = [{"t": "d", "data": "1\tone\n"}, {"t": "d", "data": "2\ttwo\n"}]
+            send(data + ([{"t": "c"}] if kind == "copy_done" else [{"t": "f", "msg": "client gives up"}])); recv()
+            if deadsrv:
+                self.do(("ExitHolding", c, "ServerError", True)); self.gone_expected += 1
+                self.replies.append((nm, t, "server_error"))
+            else:
+                # CommandComplete, or ErrorResponse (CopyFail, or the server's own error), then ReadyForQuery(I): the copy and the
+                # implicit transaction are over, the server goes back
+                self.do(("SessionModeKeep", c) if self.m.session else ("TxnEndRelease", c, False))
+                self.replies.append((nm, t, "copy_srverr" if variant == "srverr" else ("copy_ok" if kind == "copy_done" else "copy_failed")))
+            self.begin_tag.pop(c, None)
+        elif kind in ("stmt", "stmt_err", "commit"):
             sql = {"stmt": "SELECT 2 /*%s*/", "stmt_err": "SELECT 2 /*mock: error*/ /*%s*/", "commit": "COMMIT /*%s*/"}[kind] % t
             send([{"t": "Q", "sql": sql}]); recv()
             if deadsrv:
@@ -440,18 +486,21 @@ class Plan:
                     self.failed.add(c)
         elif kind == "abort":
             self.steps.append({"op": "close", "c": nm})
-            if deadsrv and ph == "InTxn":
+            if deadsrv and ph == "InTxn" and not copying:
                 self.do(("ExitHolding", c, "CleanupErr", True))
             else:
-                self.do(("ExitHolding", c, "ClientSocketErr", False))
+                # a server in COPY mode cannot be cleaned up: checkin_cleanup marks it bad (server.rs checkin_cleanup)
+                self.do(("ExitHolding", c, "ClientSocketErr", copying))
             self.gone_expected += 1
+            self.incopy.pop(c, None)
         elif kind == "X":
             send([{"t": "X"}]); self.steps.append({"op": "close", "c": nm})
-            if deadsrv and ph == "InTxn":
+            if deadsrv and ph == "InTxn" and not copying:
                 self.do(("ExitHolding", c, "CleanupErr", True))
             else:
-                self.do(("ExitHolding", c, "XTerminate", False))
+                self.do(("ExitHolding", c, "XTerminate", copying))
             self.gone_expected += 1
+            self.incopy.pop(c, None)
         elif kind == "badclose":
             send([{"raw": "43" + "00000005" + "53"}])
             self.do(("ExitHolding", c, "Panic", ph == "InTxn"))
@@ -527,6 +576,7 @@ class Plan:
             if st[0] == "NoServer":
                 free_now = bool(m.idleq) or (m.num + m.pending < m.max)
                 out += [("first", c, "begin")] * (6 if free_now or short else 8) + [("first", c, "single")] * 2 + [("first", c, "single_err")]
+                out += [("first", c, "copy_in")] * 2 + [("first", c, k) for k in ("copy_in_srverr", "copy_out", "copy_out_big", "lone_sync", "close_sync", "parse_sync")]
                 if free_now:
                     out += [("first", c, "srvclose")]
                 if cfg["plugin"]:
@@ -534,6 +584,8 @@ class Plan:
                 if not free_now and not short and not m.idleq:
                     out += [("abandon", c)] * 3
                 out += [("outer", c, self.rng.choice(["X", "abort", "badclose"]))]
+            elif st[0] == "Holding" and c in self.incopy:
+                out += [("txn", c, "copy_done")] * 4 + [("txn", c, "copy_fail")] * 3 + [("txn", c, "abort")]
             elif st[0] == "Holding" and st[2] == "InTxn":
                 out += [("txn", c, "stmt")] * 2 + [("txn", c, "stmt_err")] + [("txn", c, "commit")] * 4
                 out += [("txn", c, "abort")] * 2 + [("txn", c, "X"), ("txn", c, "badclose"), ("txn", c, "badclose"), ("txn", c, "srvclose")]
@@ -545,6 +597,7 @@ class Plan:
                     out += [("txn", c, "stmt_timeout")] * 2
             elif st[0] == "Holding" and st[2] == "IdleHeld":
                 out += [("first", c, "begin")] * 3 + [("first", c, "single")] * 2 + [("txn", c, "abort"), ("txn", c, "X"), ("txn", c, "badclose")]
+                out += [("first", c, k) for k in ("copy_in", "copy_in_srverr", "copy_out", "copy_out_big", "lone_sync", "close_sync", "parse_sync")]
                 if cfg["plugin"]:
                     out += [("first", c, "intercept")]
         if cfg.get("blips") and not m.waiters and not m.woken and m.pending == 0 and m.num > len(m.dead):
@@ -628,6 +681,8 @@ def make_toml(cfg):
     opts = {"pool_mode": "session" if cfg["session"] else "transaction", "query_parser_enabled": bool(cfg["plugin"])}
     if cfg.get("checkout_failure_limit"):
         opts["checkout_failure_limit"] = cfg["checkout_failure_limit"]
+    if cfg.get("cache"):
+        opts["prepared_statements_cache_size"] = 50
     pool = {"opts": opts,
             "users": [user], "shards": [{"servers": [["b0", "primary"]]}]}
     if cfg["plugin"]:
@@ -654,6 +709,10 @@ def classify(frames, outcome):
             return "stmt_timeout"
         if e.startswith("current transaction is aborted"):
             return "aborted_in_txn" if z == ["E"] else "aborted?"
+        if e == "COPY from stdin failed":
+            return "copy_failed" if z == ["I"] else "copy_failed?"
+        if e == "mock copy error":
+            return "copy_srverr" if z == ["I"] else "copy_srverr?"
         if e == "mock error":
             return "sql_error" if z == ["I"] else ("sql_error_in_txn" if z == ["E"] else "sql_error?")
         return "error:" + e[:60]
@@ -661,6 +720,17 @@ def classify(frames, outcome):
         return "closed"
     if outcome == "timeout" and not frames:
         return "nothing"
+    if ts == ["G"]:
+        return "copy_in_ready"
+    if "H" in ts:
+        nd = ts.count("d")
+        return "copy_out_ok" if (z == ["I"] and "c" in ts and "C" in ts and nd in (3, 40)) else "copy_out?%d/%s" % (nd, z)
+    if ts == ["Z"]:
+        return "sync_only" if z == ["I"] else "sync_only?"
+    if ts == ["3", "Z"]:
+        return "close_ok" if z == ["I"] else "close_ok?"
+    if ts == ["1", "Z"]:
+        return "parse_ok" if z == ["I"] else "parse_ok?"
     if "D" in ts:
         cols = [f.get("cols") for f in frames if f["t"] == "D"][0]
         if cols == ["fake"]:
@@ -671,6 +741,8 @@ def classify(frames, outcome):
         return "begin_ok"
     if tags and tags[0] in ("COMMIT", "ROLLBACK") and z == ["I"]:
         return "commit_ok"
+    if tags and tags[0].startswith("COPY") and z == ["I"]:
+        return "copy_ok"
     return "other:%s/%s/%s" % ("".join(ts), outcome, z)
 
 
@@ -748,7 +820,7 @@ def compare1(plan_d, coq_views, res, tolerant):
         if be["max_open_settled"] > psize or len(be["open"]) > psize:
             problems.append(("monitor-bound", "%s: %d backend sessions open (settled max %d) > pool_size %d" % (lab, len(be["open"]), be["max_open_settled"], psize)))
         if "inuse_must_be" in o and srv["connections"] - srv["idle"] != o["inuse_must_be"]:
-            problems.append(("monitor-idle-hold", "%s: %d connections in use after an intercepted batch, must be %d" % (lab, srv["connections"] - srv["idle"], o["inuse_must_be"])))
+            problems.append(("monitor-idle-hold", "%s: %d connections in use although the clients concerned are idle outside a transaction, must be %d" % (lab, srv["connections"] - srv["idle"], o["inuse_must_be"])))
         if o.get("quiet") and srv["connections"] != srv["idle"]:
             problems.append(("monitor-leak", "%s: all clients gone, yet %d of %d connections in use" % (lab, srv["connections"] - srv["idle"], srv["connections"])))
         if o.get("probe") and (o["probe_ok"] != psize or srv["connections"] - srv["idle"] != psize):
@@ -780,7 +852,7 @@ def compare1(plan_d, coq_views, res, tolerant):
             problems.append(("diff", "%s: %d client tasks ended, model %d" % (lab, len(s["task_results"]), o["gone"])))
         # holders in a transaction <-> backend sessions in a transaction, with a consistent renaming of connections
         intxn_model = {c: st[1] for c, st in held.items() if st[2] == "InTxn"}
-        intxn_impl = sorted(x["conn"] for x in be["open"] if x["s"]["state"]["txn"] in ("T", "E"))
+        intxn_impl = sorted(x["conn"] for x in be["open"] if x["s"]["state"]["txn"] in ("T", "E") or x["s"]["state"].get("copy"))
         last_tag = plan_d["last_tag_at"][oi]
         for c, sid_ in sorted(intxn_model.items()):
             if sid_ in dead:
@@ -826,6 +898,8 @@ def gen_plans(run, quick):
                 c["statement_timeout"] = 300
             elif v < 0.7:
                 c["blips"] = True
+            if rng.random() < 0.4:
+                c["cache"] = True
             n = rng.randint(max(2, c["pool_size"]), 2 * c["pool_size"] + 1)
             if rng.random() < 0.4:
                 n = 2 * c["pool_size"] + 1
@@ -861,6 +935,27 @@ def scripted_plans(run):
         p.first_message(0, "intercept"); p.observe("i", {"inuse_must_be": 1})
         p.in_txn(ps, "commit"); p.observe("u", {"inuse_must_be": 0})
         p.finish(); out.append(p)
+    # COPY: however a COPY ends, the server is back once the client is idle outside a transaction, and a waiter gets it
+    for start, end in (("copy_in", "copy_done"), ("copy_in", "copy_fail"), ("copy_in_srverr", "copy_done"), ("copy_in_srverr", "copy_fail")):
+        for cache in (False, True):
+            p = Plan({"pool_size": 1, "session": False, "fifo": False, "connect_timeout": 6000, "plugin": False, "cache": cache}, rng, 2)
+            p.actions = ["copy:%s/%s" % (start, end)]
+            p.first_message(0, start); p.observe("k0", {"inuse_must_be": 1})
+            p.first_message(1, "begin"); p.observe("k1", {"inuse_must_be": 1})          # has to wait for the copier
+            p.in_txn(0, end); p.observe("k2", {"inuse_must_be": 1})                      # copier idle again: the waiter has the server
+            p.in_txn(1, "commit"); p.observe("k3", {"inuse_must_be": 0})
+            p.first_message(0, start); p.observe("k4"); p.in_txn(0, end); p.observe("k5", {"inuse_must_be": 0})
+            p.finish(); out.append(p)
+    for kind in ("copy_out", "copy_out_big", "lone_sync", "close_sync", "parse_sync"):
+        for cache in (False, True):
+            p = Plan({"pool_size": 1, "session": False, "fifo": False, "connect_timeout": 6000, "plugin": False, "cache": cache}, rng, 2)
+            p.actions = ["release:%s" % kind]
+            p.first_message(0, "begin"); p.observe("r0")
+            p.first_message(1, kind); p.observe("r1", {"inuse_must_be": 1})             # waits
+            p.in_txn(0, "commit"); p.observe("r2", {"inuse_must_be": 0})                 # waiter served, done, server back
+            p.first_message(1, kind); p.observe("r3", {"inuse_must_be": 0})              # second use (statement cache hit when caching is on)
+            p.first_message(0, kind); p.observe("r4", {"inuse_must_be": 0})
+            p.finish(); out.append(p)
     # checkout_failure_limit: the second failed checkout ends the client task; nothing is held by it
     p = Plan({"pool_size": 1, "session": False, "fifo": False, "connect_timeout": 300, "plugin": False, "checkout_failure_limit": 2}, rng, 2)
     p.actions = ["failure_limit"]
@@ -1111,7 +1206,7 @@ def check(run):
         evals += len(p.obs)
         for a in p.actions:
             a = tuple(a) if isinstance(a, (list, tuple)) else (a,)
-            key = a[0] if a[0] in ("blip", "timeout", "abandon", "rotation", "f14", "down", "failure_limit") else (a[0], a[-1])
+            key = a[0] if a[0] in ("blip", "timeout", "abandon", "rotation", "f14", "down", "failure_limit") or str(a[0]).startswith(("copy:", "release:")) else (a[0], a[-1])
             hist[str(key)] = hist.get(str(key), 0) + 1
         for k, o in enumerate(p.ops):
             distinct.add((p.cfg["pool_size"], p.cfg["session"], p.cfg["fifo"], tuple(o[:1] + o[2:]) if len(o) > 2 else o[:1], canon_view(views[k][1])[0:2], len(views[k][1][3][0])))
